@@ -235,6 +235,16 @@ func c07Progs() map[string]*c07Prog {
 		g.Connect(t2, e, nil)
 		out["throw-catch"] = &c07Prog{G: g, Answer: all}
 	}
+	// many tokens inside one sub-process level (more cancellation traces than a subscription buffer holds)
+	{
+		wide := &gen.Block{Kind: "and", Default: -1, Kids: []*gen.Block{gen.T(), gen.T(), gen.T(), gen.T(), gen.T(), gen.T()}}
+		g := gen.Lower("p", gen.Seq(gen.T(), &gen.Block{Kind: "sub", Default: -1, Kids: []*gen.Block{wide}}, gen.T()))
+		out["sub-wide"] = &c07Prog{G: g, Answer: map[string]bool{"t1": true}}
+		wide2 := &gen.Block{Kind: "and", Default: -1, Kids: []*gen.Block{gen.T(), gen.T(), gen.T(), gen.T(), gen.T(), gen.T()}}
+		g2 := gen.Lower("p", gen.Seq(gen.T(), &gen.Block{Kind: "sub", Default: -1, Kids: []*gen.Block{
+			{Kind: "sub", Default: -1, Kids: []*gen.Block{wide2}}}}, gen.T()))
+		out["sub-nested-wide"] = &c07Prog{G: g2, Answer: map[string]bool{"t1": true}}
+	}
 	// inclusive fork with a branch ending on its own and a conditional-flow task
 	{
 		g := gen.Lower("p", gen.Seq(gen.T(), &gen.Block{Kind: "or", Default: -1, Kids: []*gen.Block{gen.Seq(gen.T(), gen.T()), gen.T(), gen.T()},
@@ -644,6 +654,35 @@ func c07Run(c *c07Case, env *fw.Env, v *fw.V) {
 	// (e) task requests after cancel() returned must carry a cancelled context... and none at all once quiescent
 	if n := lateTasks.Load(); n > 0 {
 		v.Violate("task-after-cancel-live-context", c.Prog, "%d task request(s) received after cancel() returned carried a context that is not cancelled", n)
+	}
+	// (f) answers arriving after the cancellation: every request still open is answered three times in a row;
+	// none of the calls may block its caller
+	var lateDos []*drive.Call
+	for _, r := range in.Reqs() {
+		if r.Answered {
+			continue
+		}
+		tr := r.Trace
+		lateDos = append(lateDos, in.Go("LateDo", func() error {
+			for k := 0; k < 3; k++ {
+				tr.Do(bpmn.DoWithResults(map[string]any{"late": k}))
+			}
+			return nil
+		}))
+	}
+	if len(lateDos) > 0 {
+		q = in.Quiesce(4 * time.Second)
+		for _, cl := range lateDos {
+			if d, _ := cl.Done(); !d && q.Quiescent {
+				site := ""
+				if gs := quiesce.DriverIn(q.Gs, "taskTrace).Do"); len(gs) > 0 {
+					site = gs[0].TopRepoFrame()
+				}
+				v.Violate("late-do-blocked", c.Prog, "a Do issued after the cancellation on a request that was still open never returned (three calls in a row; blocked at %s)", site)
+				break
+			}
+		}
+		v.Add("late-dos", len(lateDos))
 	}
 	v.Add("late-task-requests", int(lateTotal.Load()))
 	v.Add("traces", int(count.Load()))
